@@ -1398,6 +1398,53 @@ const EFF_COPY_BYTES: EffCfg = EffCfg {
 };
 
 
+/// libfs::next_sparse_segments: two `match lseek(infd, SeekFrom::X(arg))? { Offset(o) => o, EOF => <len> }` lets, then the pair
+fn next_sparse_segments(src: &Src) -> R<String> {
+    let (_, block) = find_fn(src, "next_sparse_segments")?;
+    let mut steps: Vec<(String, String, String, String)> = vec![];   // (binder, whence, arg, eof value)
+    let mut tail = None;
+    let mut resets = 0;
+    for st in &block.stmts {
+        match st {
+            Stmt::Local(l) => {
+                let name = pat_ident(&l.pat).ok_or("next_sparse_segments: let pattern")?;
+                let init = &l.init.as_ref().ok_or("let without init")?.expr;
+                let m = match &**init { Expr::Match(m) => m, _ => return Err("next_sparse_segments: let is not a match".into()) };
+                let scrut = quote::ToTokens::to_token_stream(&m.expr).to_string().replace(' ', "");
+                // lseek(infd,SeekFrom::Data(pos))?
+                let inner = scrut.strip_prefix("lseek(infd,SeekFrom::").and_then(|x| x.strip_suffix(")?")).ok_or(format!("unexpected scrutinee {}", scrut))?;
+                let (whence, arg) = inner.split_once('(').ok_or("whence")?;
+                let arg = arg.trim_end_matches(')').to_string();
+                let mut eof = None; let mut off_ok = false;
+                for arm in &m.arms {
+                    let p = quote::ToTokens::to_token_stream(&arm.pat).to_string().replace(' ', "");
+                    let b = quote::ToTokens::to_token_stream(&arm.body).to_string().replace(' ', "");
+                    if p == "SeekOff::Offset(off)" && b == "off" { off_ok = true; }
+                    else if p == "SeekOff::EOF" { eof = Some(if b == "infd.metadata()?.len()" { "len".to_string() } else { return Err(format!("EOF arm yields {}", b)) }); }
+                    else { return Err(format!("unexpected arm {} => {}", p, b)); }
+                }
+                if !off_ok { return Err("no Offset arm".into()); }
+                steps.push((name, whence.to_string(), arg, eof.ok_or("no EOF arm")?));
+            }
+            Stmt::Expr(e, Some(_)) => {
+                let t = quote::ToTokens::to_token_stream(e).to_string().replace(' ', "");
+                if t.starts_with("lseek(") && t.contains("SeekFrom::Start(next_data)") { resets += 1; } else { return Err(format!("unexpected statement {}", t)); }
+            }
+            Stmt::Expr(e, None) => tail = Some(quote::ToTokens::to_token_stream(e).to_string().replace(' ', "")),
+            _ => return Err("unexpected statement".into()),
+        }
+    }
+    if steps.len() != 2 || resets != 2 || tail.as_deref() != Some("Ok((next_data,next_hole))") { return Err("next_sparse_segments: unexpected shape".into()); }
+    let f = |w: &str| -> R<&'static str> { match w { "Data" => Ok("seek_data"), "Hole" => Ok("seek_hole"), _ => Err(format!("whence {}", w)) } };
+    let (b1, w1, a1, e1) = &steps[0];
+    let (b2, w2, a2, e2) = &steps[1];
+    Ok(format!("(* {}:{}  next_sparse_segments: SEEK_{} from {}, then SEEK_{} from {}; ENXIO (end of file) reads as the file length; both cursors are then set to the data start *)\n\
+Definition x_next_segment (seek_data seek_hole : N -> seek_ans) (len pos : N) : N * N + N :=\n  match {f1} {a1} with\n  | SkErr e => inr e\n  | SkOff off => let {b1} := off in\n      match {f2} {a2} with SkErr e => inr e | SkOff off => let {b2} := off in inl (next_data, next_hole) | SkEOF => let {b2} := {e2} in inl (next_data, next_hole) end\n  | SkEOF => let {b1} := {e1} in\n      match {f2} {a2} with SkErr e => inr e | SkOff off => let {b2} := off in inl (next_data, next_hole) | SkEOF => let {b2} := {e2} in inl (next_data, next_hole) end\n  end.\n",
+        src.path, block.span().start().line, w1.to_uppercase(), a1, w2.to_uppercase(), a2,
+        f1 = f(w1)?, a1 = a1, b1 = b1, e1 = e1, f2 = f(w2)?, a2 = a2, b2 = b2, e2 = e2))
+}
+
+
 fn main() {
     let root = std::env::args().nth(1).unwrap_or_else(|| "/repo".to_string());
     let root = Path::new(&root);
@@ -1485,6 +1532,7 @@ fn main() {
     match load(root, "libfs/src/linux.rs") {
         Ok(src) => {
             emit("probably_sparse", probably_sparse(&src), &mut out);
+            emit("next_sparse_segments", next_sparse_segments(&src), &mut out);
             emit("try_copy_file_range", errno_arms(&src, "try_copy_file_range", &|b| b.trim().trim_matches(|c| c == '{' || c == '}' || c == ' ') == "None")
                 .map(|(v, l)| format!("(* {}:{}  try_copy_file_range: errnos answered by the user-space fallback *)\nDefinition x_cfr_fallback_errnos : list N := {}.\n", src.path, l, nlist(&v))), &mut out);
             emit("reflink", errno_arms(&src, "reflink", &|b| b.replace(' ', "").contains("Ok(false)"))
